@@ -128,6 +128,7 @@ const (
 type GenV struct {
 	state int
 	co    *coro
+	at    *N // the yield / yield* node the generator is suspended at
 }
 
 // newGen creates a generator object whose body is the statement list body evaluated in env.
@@ -511,6 +512,23 @@ func (m *Machine) Step(op int, v Value) (res string, log []string, err *Unsuppor
 		}
 	})
 	return res, m.delta(), err
+}
+
+// Where describes the state the next driver call lands in: "start", "completed", or the syntactic position
+// of the yield the generator is suspended at (see Program.Where).
+func (m *Machine) Where() string {
+	g := m.In.self
+	switch {
+	case g == nil:
+		return "?"
+	case g.state == gSuspendedStart:
+		return "start"
+	case g.state == gCompleted:
+		return "completed"
+	case g.at == nil:
+		return "?"
+	}
+	return m.prog.Where(g.at)
 }
 
 // Done reports whether the generator has completed.
